@@ -35,6 +35,9 @@ type genFile struct {
 	expFn   string // exported function
 	expCls  string // exported class
 	aliases map[string]string
+	units   []int // indices (into lines) where a top-level unit (statement / comment block) starts
+	lines   []string
+	nl      string
 }
 
 // layoutParams: indentation unit, token separator, line terminator
@@ -86,17 +89,23 @@ func makeFile(m *markers, spec fileSpec) genFile {
 	g := genFile{spec: spec, aliases: map[string]string{}}
 	var L []string
 	add := func(parts ...string) { L = append(L, strings.Join(parts, "")) }
+	unit := func() { g.units = append(g.units, len(L)) }
 	if spec.layout == "banner" {
+		unit()
 		add("// leading comment line one of ", spec.name)
+		unit()
 		add("/* a block comment")
 		add("   that spans lines */")
 		add("")
+		unit()
 		add("// and another one")
 	}
 	if spec.layout == "astral" {
+		unit()
 		add("// \U0001F600 an astral comment line")
 	}
 	for _, im := range spec.imports {
+		unit()
 		var items []string
 		for _, p := range im.names {
 			if p[0] == p[1] {
@@ -124,24 +133,31 @@ func makeFile(m *markers, spec fileSpec) genFile {
 	if spec.layout == "astral" {
 		pre = "/* \U0001F600\U0001F600 */ "
 	}
+	unit()
 	add("var", S, V, S, "=", S, G1, "(", filler(m, spec.layout, 0), ",", S, m.str(), ",", S, m.dstr(), ");")
+	unit()
 	add(exp, "function", S, F, "(", P, ",", S, Q, ")", S, "{")
 	add(ind, "if", S, "(", P, ")", S, "return", S, Q, S, "+", S, "`", m.raw(), "${", P, "}", m.raw(), "`;")
 	add(ind, "for", S, "(let", S, X, S, "of", S, V, ".", m.id("prop"), ")", S, "{", S, F, "(", X, ",", S, filler(m, spec.layout, 1), ",", S, m.str(), ");", S, "}")
 	add(ind, "return", S, "new", S, m.id("g"), ".", m.id("h"), "(", filler(m, spec.layout, 2), ",", S, m.str(), ")")
 	add("}")
+	unit()
 	add(exp, "class", S, C, S, "extends", S, m.id("B"), S, "{", S, m.id("m"), "()", S, "{", S, "return", S, "this.", m.id("f"), "?.[", m.str(), "]", S, "}", S, "static", S, m.id("s"), S, "=", S, m.str(), S, "}")
+	unit()
 	add(pre, F, "(", V, ",", S, "{", S, m.id("k"), ":", S, C, ",", S, m.str(), ":", S, "[", m.id("g"), ",", S, filler(m, spec.layout, 3), ",", S, m.str(), "]", S, "});")
 	for _, im := range spec.imports {
 		var args []string
 		for _, p := range im.names {
 			args = append(args, p[1])
 		}
+		unit()
 		add(pre, m.id("g"), "(", strings.Join(args, ","+S), ",", S, filler(m, spec.layout, 4), ",", S, m.str(), ");")
 	}
 	if spec.dynamic != "" {
+		unit()
 		add("import('", spec.dynamic, "').then(", m.id("y"), S, "=>", S, m.id("g"), "(", m.str(), ",", S, filler(m, spec.layout, 5), "));", S, m.id("g"), "(", m.str(), ");")
 	}
 	g.text = strings.Join(L, nl) + nl
+	g.lines, g.nl = L, nl
 	return g
 }
